@@ -73,12 +73,14 @@ static void plan_gen(DPlan *P, uint64_t seed, const RunOpts *o) {
     bool c18 = strcmp(P->sub, "c18") == 0;
     sim_seed(seed);
     gen_knobs(quick);
+    /* C18: descriptor pressure, as many abandoned connections produce it: accept() fails a few times before it succeeds */
+    if (c18 && sim_rndn(4) == 0) K.accept_fail_pm = 50 + (int)sim_rndn(400);
     uint32_t m = sim_rndn(16);
     P->mode = m < 9 ? 0 : m < 15 ? 1 : 2;
     if (c18 && P->mode == 2) P->mode = 0;
     if (o->sub && strcmp(o->sub, "c17idle") == 0) { P->mode = 2; strcpy(P->sub, "c17"); }
     P->verbose = sim_rndn(3) == 0;
-    P->race = !c18 && sim_rndn(4) == 0;
+    P->race = sim_rndn(c18 ? 8 : 4) == 0;   /* error and abandonment paths of C18 plans are daemon code too */
     if (o->sub && strcmp(o->sub, "c17race") == 0) { P->race = 1; strcpy(P->sub, "c17"); }
     int maxc = quick ? 8 : (sim_rndn(8) == 0 ? 64 : 12);
     if (c18) maxc = 4;
@@ -91,6 +93,11 @@ static void plan_gen(DPlan *P, uint64_t seed, const RunOpts *o) {
         int nt = is_gen(c->prog) ? 1 : corpus_ntoks(c->prog);
         c->tok = i % (nt ? nt : 1);
         /* (prog,tok) must be unique per run so every output byte is attributable */
+        if (!is_gen(c->prog)) {
+            /* every token of this program may already be taken (large plans): then the client gets a generated program, which is unique by its index */
+            int used = 0; for (int j = 0; j < i; j++) if (strcmp(P->c[j].prog, c->prog) == 0) used++;
+            if (used >= nt) { snprintf(c->prog, sizeof c->prog, "gen%u", 100000 + sim_rndn(quick ? 150 : 20000) * 64 + (unsigned)i); nt = 1; c->tok = 0; }
+        }
         for (int j = 0; j < i && !is_gen(c->prog); j++) if (P->c[j].tok == c->tok && strcmp(P->c[j].prog, c->prog) == 0) { c->tok = (c->tok + 1) % nt; j = -1; }
         c->arrive = window ? sim_rndn((uint32_t)window) : 0;
         /* mode 2: the daemon idles out after 1 s; aim the arrivals at the instant it decides to shut down */
@@ -516,8 +523,10 @@ static void fam_run(uint64_t seed, const RunOpts *o, Result *r) {
                 res_violation(r, prop, "session-count-drift:%ld", pr.active_reported);
                 buf_printf(&r->detail, "STATUS long after all sessions ended reports %ld active sessions (the query itself is the only one): bad sessions corrupted the daemon's bookkeeping\n", pr.active_reported);
             }
-            int lt = sim_proc_live_tasks(daemon);
-            if (lt != 1) { res_violation(r, prop, "session-leaked:%d", lt - 1); buf_printf(&r->detail, "daemon has %d session threads still alive at quiescence\n", lt - 1); }
+            /* no thread of the daemon may still be waiting for a peer that no longer exists (helper threads idling on a condition
+             * variable or semaphore are the implementation's business) */
+            int lt = sim_proc_tasks_stuck_on_peer(daemon);
+            if (lt > 0) { res_violation(r, prop, "session-leaked:%d", lt); buf_printf(&r->detail, "daemon has %d thread(s) still waiting on a socket, pipe or child at quiescence, of %d alive\n", lt, sim_proc_live_tasks(daemon)); }
         }
     } else if (P.mode == 1) {
         /* lazily launched daemon (default 300 s idle timeout): it must still answer at t = 20 s */
